@@ -162,7 +162,7 @@ class P(Property):
                 seen.add(c)
                 pick.append(c)
         # every boundary-value / long-run case plus a seeded sample of the rest
-        budget = 1500 if quick else 60000
+        budget = 1500 if quick else 20000
         if len(pick) > budget:
             head = [c for c in pick if len(c.split()[2]) >= 8][:budget // 2]
             pick = head + rng.sample(pick, budget - len(head))
